@@ -11,7 +11,8 @@ for d in src bindings util man doc; do cp -a /repo/$d $M/$d; done
 for c in $CHECKS; do
   # the evidence file must keep describing the last run on /repo itself, not this run on a changed copy
   [ -f /verif/evidence/$c.json ] && cp /verif/evidence/$c.json /var/tmp/evidence-keep-$c.$$
-  out=$(cd /verif && VERIF_REPO=$M timeout 1500 python3 checks/$c.py 2>&1); rc=$?
+  # one run of a given check at a time (translators write coq/Gen/*.v for the tree they are pointed at)
+  out=$(cd /verif && VERIF_REPO=$M flock /var/tmp/verif-check-$c.lock timeout 1500 python3 checks/$c.py 2>&1); rc=$?
   [ -f /var/tmp/evidence-keep-$c.$$ ] && mv /var/tmp/evidence-keep-$c.$$ /verif/evidence/$c.json
   echo "== seeded/$S check $c: exit $rc"
   echo "$out" | grep -v "^KNOWN-FINDING\|^note:" | cut -c1-300 | head -8
